@@ -93,7 +93,7 @@ func (m *Machine) invoke(fr *Frame, fnv Value, args []Value, res ssa.Value, c *s
 		if f.Fn.Name() == "init" && f.Fn.Pkg != nil && f.Fn.Signature.Recv() == nil && f.Fn.Parent() == nil {
 			// package initialiser of a dependency: only golem's own packages are run
 			pp := f.Fn.Pkg.Pkg.Path()
-			if !(strings.HasPrefix(pp, "github.com/fogfish/golem") || strings.HasPrefix(pp, "verif.local/")) || m.initDone[f.Fn.Pkg] {
+			if !strings.HasPrefix(pp, "github.com/fogfish/golem") || m.initDone[f.Fn.Pkg] {
 				return
 			}
 			m.initDone[f.Fn.Pkg] = true
